@@ -230,3 +230,167 @@ package secp256k1
 //@   ensures sel [C13,C10]: imp(!isnil(u) && !isnil(v), result == 0 && wfs(s) && sv(s) == ite(cond == 0, old(sv(u)), old(sv(v))))
 //@   ensures nil [C13]: imp(isnil(u) || isnil(v), result == errParamNilScalar && unchanged(s))
 //@   modifies *s
+
+// ---- constructors, copies, scalar multiplication ----
+//@ const GX = 0x79be667ef9dcbbac55a06295ce870b07029bfcdb2dce28d959f2815b16f81798
+//@ const GY = 0x483ada7726a3c4655da4fbfc0e1108a8fd17b448a68554199c47d08ffb10d4b8
+//@ lemma pt_of_affine(x, y) {lean: Secp.pt_of_affine}: imp(y*y == x*x*x + F(7), valid(x, y, F(1)) && ptf(x, y, F(1)) == aff(x, y))
+
+//@ func NewElement
+//@   mode int
+//@   ensures id [C10]: inv(result) && pt(result) == gzero() by valid_identity()
+//@   returns fresh
+
+//@ func Element.Identity
+//@   mode int
+//@   ensures id [C10]: inv(e) && pt(e) == gzero() by valid_identity()
+//@   modifies *e
+//@   returns e
+
+//@ func Element.Base
+//@   mode int
+//@   ensures g [C10]: inv(e) && pt(e) == aff(F(GX), F(GY)) by pt_of_affine(F(GX), F(GY))
+//@   modifies *e
+//@   returns e
+
+//@ func Base
+//@   mode int
+//@   ensures g [C10]: inv(result) && pt(result) == aff(F(GX), F(GY))
+//@   returns fresh
+
+//@ func Element.Set
+//@   mode int
+//@   requires inv(element)
+//@   ensures cp [C10]: inv(e) && pt(e) == old(pt(element))
+//@   modifies *e
+//@   returns e
+
+//@ func Element.Copy
+//@   mode int
+//@   requires inv(e)
+//@   ensures cp [C10]: inv(result) && pt(result) == pt(e)
+//@   returns fresh
+
+//@ func Element.multiply
+//@   mode int
+//@   requires inv(e) && wfs(s)
+//@   uses nint_range(sv(s)), hi_top(fint(sv(s))), hi_zero(fint(sv(s))), smul_zero(pt(e)), smul_one(pt(e)), valid_identity()
+//@   ensures mul [C01,C10]: inv(e) && pt(e) == smul(fint(sv(s)), old(pt(e)))
+//@   modifies *e
+//@   returns e
+//@ loop 1
+//@   modifies i, *r0, *r1
+//@   invariant rng: 0 - 1 <= i && i <= 255
+//@   invariant acc: inv(r0) && inv(r1) && pt(r0) == smul(hi(fint(sv(s)), i + 1), old(pt(e))) && pt(r1) == smul(hi(fint(sv(s)), i + 1) + 1, old(pt(e)))
+//@   uses hi_step(fint(sv(s)), i)
+//@   uses smul_add(hi(fint(sv(s)), i + 1), hi(fint(sv(s)), i + 1), old(pt(e)))
+//@   uses smul_add(hi(fint(sv(s)), i + 1) + 1, hi(fint(sv(s)), i + 1) + 1, old(pt(e)))
+//@   uses smul_add(hi(fint(sv(s)), i + 1), hi(fint(sv(s)), i + 1) + 1, old(pt(e)))
+//@   uses smul_add(hi(fint(sv(s)), i + 1) + 1, hi(fint(sv(s)), i + 1), old(pt(e)))
+
+//@ func Element.Multiply
+//@   mode int
+//@   nilable scalar
+//@   requires inv(e) && (isnil(scalar) || wfs(scalar))
+//@   ensures mul [C01,C10]: imp(!isnil(scalar), inv(e) && pt(e) == smul(fint(sv(scalar)), old(pt(e))))
+//@   ensures nil [C01]: imp(isnil(scalar), inv(e) && pt(e) == gzero())
+//@   modifies *e
+//@   returns e
+
+// ---- SEC1 encodings ----
+//@ declare affx(G) F
+//@ declare affy(G) F
+//@ define secp_poly(x) = x*x*x + F(7)
+//@ lemma aff_coords(X, Y, Z) {lean: Secp.aff_coords}: imp(valid(X, Y, Z) && Z != F(0), affx(ptf(X, Y, Z)) == fmul(finv(Z), X) && affy(ptf(X, Y, Z)) == fmul(finv(Z), Y))
+//@ lemma aff_of(x, y) {lean: Secp.aff_of}: imp(y*y == secp_poly(x), affx(aff(x, y)) == x && affy(aff(x, y)) == y && aff(x, y) != gzero())
+//@ lemma neg_parity(y) {lean: Secp.neg_parity}: imp(y != F(0), fint(fneg(y)) % 2 == 1 - fint(y) % 2)
+//@ lemma fneg_sq(y) {lean: neg_mul_neg}: fmul(fneg(y), fneg(y)) == fmul(y, y)
+//@ lemma poly_nonzero(x) {lean: Secp.poly_nonzero}: secp_poly(x) != F(0)
+//@ lemma sq_zero(y) {lean: Secp.sq_zero}: (fmul(y, y) == F(0)) == (y == F(0))
+
+//@ func Element.affine
+//@   mode int
+//@   requires wf3(e)
+//@   ensures a: wf3(result) && fv(result.x) == ite(fv(e.z) == F(0), F(0), fmul(finv(fv(e.z)), fv(e.x))) && fv(result.y) == ite(fv(e.z) == F(0), F(1), fmul(finv(fv(e.z)), fv(e.y)))
+//@   returns fresh
+
+//@ func Element.Encode
+//@   mode int
+//@   requires inv(e)
+//@   uses pt_identity_iff(fv(e.x), fv(e.y), fv(e.z)), aff_coords(fv(e.x), fv(e.y), fv(e.z))
+//@   ensures len [C04]: len(result) == 1 || len(result) == 33
+//@   ensures id [C04]: imp(len(result) == 1, result[0] == 0 && pt(e) == gzero())
+//@   ensures pt [C04]: imp(len(result) == 33, pt(e) != gzero() && result[0] == 2 + fint(affy(pt(e))) % 2 && os2ip(result[1:33]) == fint(affx(pt(e))))
+//@   returns fresh:1|33
+
+//@ func Element.EncodeUncompressed
+//@   mode int
+//@   requires inv(e)
+//@   uses pt_identity_iff(fv(e.x), fv(e.y), fv(e.z)), aff_coords(fv(e.x), fv(e.y), fv(e.z))
+//@   ensures len [C04]: len(result) == 1 || len(result) == 65
+//@   ensures id [C04]: imp(len(result) == 1, result[0] == 0 && pt(e) == gzero())
+//@   ensures pt [C04]: imp(len(result) == 65, pt(e) != gzero() && result[0] == 4 && os2ip(result[1:33]) == fint(affx(pt(e))) && os2ip(result[33:65]) == fint(affy(pt(e))))
+//@   returns fresh:1|65
+
+//@ func Element.XCoordinate
+//@   mode int
+//@   requires inv(e)
+//@   ensures len [C04]: len(result) == 0 || len(result) == 32
+//@   ensures id [C04]: imp(len(result) == 0, pt(e) == gzero())
+//@   ensures x [C04]: imp(len(result) == 32, pt(e) != gzero() && os2ip(result) == fint(affx(pt(e))))
+//@   returns fresh:0|32
+
+//@ func Secp256Polynomial
+//@   mode int
+//@   requires !same(y, x)
+//@   requires wf(x)
+//@   ensures p: wf(y) && fv(y) == secp_poly(old(fv(x)))
+//@   modifies *y
+
+// decoders: acceptance predicates written from the property statement
+//@ define accXY(x, y) = os2ip(x) < P && os2ip(y) < P && fofint(os2ip(y))*fofint(os2ip(y)) == secp_poly(fofint(os2ip(x)))
+//@ define accC(data) = len(data) == 33 && (data[0] == 2 || data[0] == 3) && os2ip(data[1:33]) < P && issq(secp_poly(fofint(os2ip(data[1:33]))))
+//@ define accU(data) = len(data) == 65 && data[0] == 4 && accXY(data[1:33], data[33:65])
+//@ define accI(data) = len(data) == 1 && data[0] == 0
+
+//@ func Element.DecodeCoordinates
+//@   mode int
+//@   requires wf3(e)
+//@   ensures acc [C03]: (result == 0) == accXY(x, y)
+//@   ensures ok [C03,C10]: imp(result == 0, inv(e) && pt(e) == aff(fofint(os2ip(x)), fofint(os2ip(y)))) by pt_of_affine(fofint(os2ip(x)), fofint(os2ip(y)))
+//@   ensures err [C03]: imp(result != 0, result == errParamInvalidPointEncoding && unchanged(e))
+//@   modifies *e
+
+//@ define dcX(data) = fofint(os2ip(data[1:33]))
+//@ define dcY(data) = sr_y(secp_poly(dcX(data)), F(1))
+//@ func Element.DecodeCompressed
+//@   mode int
+//@   lens data 0,1,32,33,34,65
+//@   requires wf3(e)
+//@   uses sqrt_ratio_one(secp_poly(dcX(data))), poly_nonzero(dcX(data)), sq_zero(dcY(data)), neg_parity(dcY(data)), fneg_sq(dcY(data))
+//@   uses pt_of_affine(dcX(data), dcY(data)), pt_of_affine(dcX(data), fneg(dcY(data))), aff_of(dcX(data), dcY(data)), aff_of(dcX(data), fneg(dcY(data)))
+//@   uses fofint_fint(os2ip(data[1:33])), fint_range(dcY(data)), fint_range(fneg(dcY(data)))
+//@   ensures acc [C03]: (result == 0) == accC(data)
+//@   ensures ok [C03,C10]: imp(result == 0, inv(e) && pt(e) != gzero() && fint(affx(pt(e))) == os2ip(data[1:33]) && fint(affy(pt(e))) % 2 == data[0] % 2)
+//@   ensures err [C03]: imp(result != 0, result == errParamInvalidPointEncoding && unchanged(e))
+//@   modifies *e
+
+//@ func Element.DecodeUncompressed
+//@   mode int
+//@   lens data 0,1,33,64,65,66
+//@   requires wf3(e)
+//@   ensures acc [C03]: (result == 0) == accU(data)
+//@   ensures ok [C03,C10]: imp(result == 0, inv(e) && pt(e) == aff(fofint(os2ip(data[1:33])), fofint(os2ip(data[33:65]))))
+//@   ensures err [C03]: imp(result != 0, result == errParamInvalidPointEncoding && unchanged(e))
+//@   modifies *e
+
+//@ func Element.Decode
+//@   mode int
+//@   lens data 0,1,2,32,33,34,64,65,66
+//@   requires wf3(e)
+//@   ensures acc [C03]: (result == 0) == (accI(data) || accC(data) || accU(data))
+//@   ensures okI [C03,C10]: imp(result == 0 && len(data) == 1, inv(e) && pt(e) == gzero())
+//@   ensures okC [C03,C10]: imp(result == 0 && len(data) == 33, inv(e) && pt(e) != gzero() && fint(affx(pt(e))) == os2ip(data[1:33]) && fint(affy(pt(e))) % 2 == data[0] % 2)
+//@   ensures okU [C03,C10]: imp(result == 0 && len(data) == 65, inv(e) && pt(e) == aff(fofint(os2ip(data[1:33])), fofint(os2ip(data[33:65]))))
+//@   ensures err [C03]: imp(result != 0, result == errParamInvalidPointEncoding && unchanged(e))
+//@   modifies *e
